@@ -262,6 +262,19 @@ func TestVerifSCTrace(t *testing.T) {
 	cases := vuEnvInt("VERIF_CASES", 120)
 	if skip == 0 {
 		scProbeInvalidRival(rec)
+		// NearestMatch of a known value is that value, also among values that differ from it only in a byte that is not UTF-8
+		// (for MultipleMatch this family is the open finding probed above)
+		c := New(0.8)
+		rec.out.Emit(map[string]interface{}{"ev": "reset", "keepmemo": false})
+		rec.out.Emit(map[string]interface{}{"ev": "new", "c": "rivals"})
+		var vals []string
+		for i := 0; i < 8; i++ {
+			vals = append(vals, "permission is hereby granted "+string([]byte{byte(0x80 + i)})+" free of charge to anyone")
+			rec.add(c, "rivals", fmt.Sprintf("r%d", i), vals[i])
+		}
+		for i, v := range vals {
+			rec.nm(c, "rivals", v, []string{fmt.Sprintf("r%d", i)}, "")
+		}
 	}
 	vocabs := [][]string{
 		{"alpha", "beta", "gamma"},
